@@ -7,7 +7,8 @@ digit positions, the code of digit step i lives at its own addresses, and betwee
 except for the operand digits, the temporaries private to one step (`_src` of bit.add1) and a few STATE CELLS (the carry
 bit kept in the jump word of `hex.add.dst` / in bit.add's `carry`, word 0 whose bit 0 every `;label` op flips, word 1 =
 the harness' entry redirect, the output port of the blocks that print an exit marker).  Per run, for every composed
-block (table COMPOSED: hex.add sub xor or and not inc dec cmp, bit.xor not add):
+block (table COMPOSED: hex.add sub xor or and not inc dec cmp if if0 if1 xor_zero zero, bit.xor not add inc cmp if if0 if1
+or and xor_zero swap zero; the cheaper-to-believe ones only in the thorough tier):
 
  1. the harness block (same text as the enumerated blocks of stl.py: the REAL macro call, variables, canaries) is
     assembled with the current assembler + stl (worker stl_compose_asm); the step boundaries A_0..A_n are read from the
